@@ -3,13 +3,15 @@
 Read from flow/record/base.py with `ast`/`inspect` (the SHAPE of small methods is the fact) and from the imported
 module (constants, which class defines which special method):
 
-* Record.__eq__      : the isinstance guard; which of the two _pack calls gets IGNORE_FIELDS_FOR_COMPARISON
+* Record.__eq__      : the isinstance guard; the comparison of self._descriptors() with other._descriptors() (and what
+                       Record/GroupedRecord._descriptors and RecordDescriptor.__eq__ are); which of the two _pack calls
+                       gets IGNORE_FIELDS_FOR_COMPARISON
 * Record._pack       : the `continue` for an excluded field comes before `values.append`
 * Record.__hash__    : passes the ignore set to _pack; freezes through a helper that recurses into list/tuple/dict
                        and turns a dict into a frozenset
 * GroupedRecord._pack: has an excluded_fields parameter and forwards it to every member
 * ignore_fields_for_comparison: restores the saved value in a `finally`
-* RESERVED_FIELDS, the environment variable name, the descriptor-hash input expression.
+* RESERVED_FIELDS, the environment variable name.
 
 Fail closed: a shape the recognisers below do not know raises Unsupported.
 """
@@ -105,6 +107,22 @@ def eq_facts(base):
             body = body[1:]
         else:
             raise Unsupported("Record.__eq__: unrecognised leading `if` (line %d)" % body[0].lineno)
+    descs = False
+    if body and isinstance(body[0], ast.If):
+        st = body[0]
+        t = st.test
+
+        def dcall(n, who):
+            return (isinstance(n, ast.Call) and isinstance(n.func, ast.Attribute) and n.func.attr == "_descriptors"
+                    and _name(n.func.value, who) and not n.args and not n.keywords)
+        if (isinstance(t, ast.Compare) and len(t.ops) == 1 and isinstance(t.ops[0], ast.NotEq)
+                and ((dcall(t.left, me) and dcall(t.comparators[0], other)) or (dcall(t.left, other) and dcall(t.comparators[0], me)))
+                and not st.orelse and len(st.body) == 1 and isinstance(st.body[0], ast.Return)
+                and isinstance(st.body[0].value, ast.Constant) and st.body[0].value.value is False):
+            descs = True
+            body = body[1:]
+        else:
+            raise Unsupported("Record.__eq__: unrecognised second `if` (line %d)" % st.lineno)
     env = {}
     while body and isinstance(body[0], ast.Assign) and len(body[0].targets) == 1 and isinstance(body[0].targets[0], ast.Name):
         env[body[0].targets[0].id] = _subst(body[0].value, env)
@@ -126,7 +144,75 @@ def eq_facts(base):
             sides[who] = True
         else:
             raise Unsupported("Record.__eq__: excluded_fields argument is neither the global ignore set nor absent")
-    return guard, sides[me], sides[other]
+    if descs:
+        _descriptor_methods(base)
+    return guard, sides[me], sides[other], descs
+
+
+def _descriptor_methods(base):
+    """Record._descriptors returns (self._desc,), GroupedRecord._descriptors returns tuple(self.descriptors),
+    GroupedRecord.__init__ appends every member's _desc to self.descriptors, and RecordDescriptor.__eq__ compares
+    name and field tuples"""
+    fn = base.Record.__dict__.get("_descriptors")
+    if fn is None:
+        raise Unsupported("Record._descriptors is not defined")
+    b = _body(_fdef(fn))
+    ok = (len(b) == 1 and isinstance(b[0], ast.Return) and isinstance(b[0].value, ast.Tuple) and len(b[0].value.elts) == 1
+          and isinstance(b[0].value.elts[0], ast.Attribute) and b[0].value.elts[0].attr == "_desc" and _name(b[0].value.elts[0].value, "self"))
+    if not ok:
+        raise Unsupported("Record._descriptors is not `return (self._desc,)`")
+    fn = base.GroupedRecord.__dict__.get("_descriptors")
+    if fn is None:
+        raise Unsupported("GroupedRecord._descriptors is not defined (a grouped record would be compared by its flat descriptor)")
+    b = _body(_fdef(fn))
+    ok = (len(b) == 1 and isinstance(b[0], ast.Return) and isinstance(b[0].value, ast.Call) and _name(b[0].value.func, "tuple")
+          and len(b[0].value.args) == 1 and isinstance(b[0].value.args[0], ast.Attribute) and b[0].value.args[0].attr == "descriptors"
+          and _name(b[0].value.args[0].value, "self"))
+    if not ok:
+        raise Unsupported("GroupedRecord._descriptors is not `return tuple(self.descriptors)`")
+    init = _fdef(base.GroupedRecord.__dict__["__init__"])
+    rec_appends = desc_appends = 0
+    for sub in ast.walk(init):
+        if (isinstance(sub, ast.Call) and isinstance(sub.func, ast.Attribute) and sub.func.attr == "append"
+                and isinstance(sub.func.value, ast.Attribute) and _name(sub.func.value.value, "self") and len(sub.args) == 1):
+            if sub.func.value.attr == "records" and _name(sub.args[0]):
+                rec_appends += 1
+            if (sub.func.value.attr == "descriptors" and isinstance(sub.args[0], ast.Attribute) and sub.args[0].attr == "_desc"
+                    and _name(sub.args[0].value)):
+                desc_appends += 1
+    if rec_appends == 0 or rec_appends != desc_appends:
+        raise Unsupported("GroupedRecord.__init__ does not append a member's _desc for every member it appends")
+    fn = base.RecordDescriptor.__dict__.get("__eq__")
+    if fn is None:
+        raise Unsupported("RecordDescriptor defines no __eq__")
+    node = _fdef(fn)
+    me, other = [a.arg for a in node.args.args]
+    b = _body(node)
+    ret = None
+    if (len(b) == 2 and isinstance(b[0], ast.If) and isinstance(b[0].test, ast.Call) and _name(b[0].test.func, "isinstance")
+            and _name(b[0].test.args[0], other) and len(b[0].body) == 1 and isinstance(b[0].body[0], ast.Return)
+            and isinstance(b[1], ast.Return) and (_name(b[1].value, "NotImplemented") or (isinstance(b[1].value, ast.Constant) and b[1].value.value is False))):
+        ret = b[0].body[0].value
+    if not (isinstance(ret, ast.BoolOp) and isinstance(ret.op, ast.And) and len(ret.values) == 2):
+        raise Unsupported("RecordDescriptor.__eq__ is not `if isinstance(other, RecordDescriptor): return <a> and <b>` + NotImplemented")
+
+    def cmp_of(n):
+        if not (isinstance(n, ast.Compare) and len(n.ops) == 1 and isinstance(n.ops[0], ast.Eq)):
+            return None
+        l, r = n.left, n.comparators[0]
+        if (isinstance(l, ast.Attribute) and isinstance(r, ast.Attribute) and l.attr == r.attr == "name"
+                and {getattr(l.value, "id", None), getattr(r.value, "id", None)} == {me, other}):
+            return "name"
+        if (isinstance(l, ast.Call) and isinstance(r, ast.Call) and isinstance(l.func, ast.Attribute) and isinstance(r.func, ast.Attribute)
+                and l.func.attr == r.func.attr == "get_field_tuples" and not l.args and not r.args
+                and {getattr(l.func.value, "id", None), getattr(r.func.value, "id", None)} == {me, other}):
+            return "fields"
+        if (isinstance(l, ast.Attribute) and isinstance(r, ast.Attribute) and l.attr == r.attr == "_field_tuples"
+                and {getattr(l.value, "id", None), getattr(r.value, "id", None)} == {me, other}):
+            return "fields"
+        return None
+    if sorted(filter(None, (cmp_of(v) for v in ret.values))) != ["fields", "name"]:
+        raise Unsupported("RecordDescriptor.__eq__ does not compare exactly name and field tuples")
 
 
 def pack_facts(base):
@@ -396,28 +482,6 @@ def env_var(base):
     return names[0]
 
 
-def hash_input_is_concat(base):
-    fn = base.RecordDescriptor.__dict__["calc_descriptor_hash"]
-    fn = getattr(fn, "__func__", fn)
-    node = _fdef(fn)
-    for st in _body(node):
-        if isinstance(st, ast.Assign) and len(st.targets) == 1 and _name(st.targets[0], "data"):
-            e = st.value
-            if (isinstance(e, ast.BinOp) and isinstance(e.op, ast.Add) and _name(e.left, "name") and isinstance(e.right, ast.Call)
-                    and isinstance(e.right.func, ast.Attribute) and e.right.func.attr == "join"
-                    and isinstance(e.right.func.value, ast.Constant) and e.right.func.value.value == ""
-                    and len(e.right.args) == 1 and isinstance(e.right.args[0], ast.GeneratorExp)):
-                g = e.right.args[0]
-                if (isinstance(g.elt, ast.JoinedStr) and len(g.elt.values) == 2
-                        and all(isinstance(v, ast.FormattedValue) and _name(v.value) and v.format_spec is None and v.conversion == -1
-                                for v in g.elt.values)
-                        and len(g.generators) == 1 and isinstance(g.generators[0].target, ast.Tuple)
-                        and [x.id for x in g.generators[0].target.elts] == ["t", "n"] and _name(g.generators[0].iter, "fields")
-                        and [v.value.id for v in g.elt.values] == ["n", "t"]):
-                    return True
-    return False
-
-
 def special_methods(base):
     """which classes define the special methods: nothing but Record may define __eq__/__hash__, nobody __ne__"""
     from flow.record import RecordDescriptor
@@ -432,7 +496,7 @@ def special_methods(base):
 
 def gen_equality():
     import flow.record.base as base
-    guard, eq_l, eq_r = eq_facts(base)
+    guard, eq_l, eq_r, eq_descs = eq_facts(base)
     skip_first = pack_facts(base)
     h_ign, h_deep, h_unordered = hash_facts(base)
     g_acc, g_fwd = grouped_facts(base)
@@ -443,8 +507,8 @@ def gen_equality():
     out += "From Coq Require Import List Bool String.\nImport ListNotations.\nFrom FR Require Import Equality.\nOpen Scope string_scope.\n\n"
     out += "(* flow/record/base.py: Record.__eq__/_pack/__hash__, _hashable, GroupedRecord._pack, ignore_fields_for_comparison *)\n"
     out += "Definition facts_now : facts := {|\n"
-    out += "  f_eq_ign_left := %s; f_eq_ign_right := %s; f_eq_isinstance_guard := %s; f_ne_default := %s;\n" % (
-        cbool(eq_l), cbool(eq_r), cbool(guard), cbool(ne_default))
+    out += "  f_eq_ign_left := %s; f_eq_ign_right := %s; f_eq_isinstance_guard := %s; f_eq_descriptors := %s; f_ne_default := %s;\n" % (
+        cbool(eq_l), cbool(eq_r), cbool(guard), cbool(eq_descs), cbool(ne_default))
     out += "  f_hash_ign := %s; f_hash_deep := %s; f_hash_dict_unordered := %s; f_skip_before_append := %s;\n" % (
         cbool(h_ign), cbool(h_deep), cbool(h_unordered), cbool(skip_first))
     out += "  f_grp_accepts := %s; f_grp_forwards := %s; f_ctx_finally := %s; f_hashable_defined := %s;\n" % (
@@ -452,8 +516,6 @@ def gen_equality():
     out += "  f_reserved := %s |}.\n\n" % clist([cstr(n) for n in reserved])
     out += "Definition hash_freezes_deep : bool := %s.\n" % cbool(h_deep)
     out += "Definition ignore_env_var : string := %s.\n" % cstr(env_var(base))
-    out += "(* calc_descriptor_hash feeds name + \"\".join(f\"{n}{t}\" for t, n in fields) to the digest *)\n"
-    out += "Definition descriptor_hash_input_is_concat : bool := %s.\n" % cbool(hash_input_is_concat(base))
     write_if_changed(GEN / "Gen_equality.v", out)
 
 
